@@ -200,6 +200,8 @@ where C: Clone + Debug + Serialize + Send + Sync + 'static {
                 // once a relevant failure is seen the closure is re-run by the shrinker: stop counting then
                 let failing = std::cell::Cell::new(false);
                 let failing_tag = std::cell::RefCell::new(String::new());
+                // the case and failure as first observed: reported as they are if the shrunk case does not fail again (timing)
+                let first_observed: std::cell::RefCell<Option<(C, Failure)>> = std::cell::RefCell::new(None);
                 let result = runner.run(&strategy, |case| {
                     if !failing.get() && shared.stop.load(Ordering::Acquire) { return Ok(()); }
                     let outcome = run_case(&case);
@@ -231,6 +233,7 @@ where C: Clone + Debug + Serialize + Send + Sync + 'static {
                             }
                             Relevance::Violation => {
                                 failing.set(true);
+                                *first_observed.borrow_mut() = Some((case.clone(), failure.clone()));
                                 *failing_tag.borrow_mut() = failure.tag.clone();
                                 shared.stop.store(true, Ordering::Release);
                                 return Err(TestCaseError::fail(failure.tag.clone()));
@@ -256,8 +259,12 @@ where C: Clone + Debug + Serialize + Send + Sync + 'static {
                             if found_failure.tag == *failing_tag.borrow() { failure = Some(found_failure); break; }
                         }
                     }
-                    let failure = failure.unwrap_or_else(|| Failure::new(&context.property, &failing_tag.borrow(), "the shrunk case did not fail again when re-run (timing dependent); see the tag".to_string()));
-                    found.lock().unwrap().push((worker, minimal, failure));
+                    match (failure, first_observed.borrow_mut().take()) {
+                        (Some(failure), _) => found.lock().unwrap().push((worker, minimal, failure)),
+                        // timing dependent: report the case and the failure exactly as first observed (not shrunk)
+                        (None, Some((case, mut failure))) => { failure.message = format!("{} [observed once; the case did not fail again when re-run during shrinking: timing dependent]", failure.message); found.lock().unwrap().push((worker, case, failure)); }
+                        (None, None) => found.lock().unwrap().push((worker, minimal, Failure::new(&context.property, &failing_tag.borrow(), "the shrunk case did not fail again when re-run (timing dependent); see the tag".to_string()))),
+                    }
                 }
             });
         }
